@@ -153,9 +153,11 @@ func malformed(class string, addr string, real []byte, head *entry.Entry, rng *r
 		if class == "real-identity-keysig-changed" {
 			field = "publicKey"
 		}
-		if sg, _ := sigs[field].(string); len(sg) > 12 {
+		if sg, _ := sigs[field].(string); len(sg) > 24 {
 			b := []byte(sg)
-			p := 10 + rng.Intn(len(b)-12)
+			// (not among the last characters: the signature travels in base64, whose decoder ignores the unused bits of
+			// the last character before the padding - such a copy would decode to the very same signature)
+			p := 10 + rng.Intn(len(b)-20)
 			if b[p] == '1' {
 				b[p] = '2'
 			} else {
